@@ -84,6 +84,12 @@ func Generate(ctx context.Context, wd string, env []string, patterns []string, o
 	if opts == nil {
 		opts = &GenerateOptions{}
 	}
+	if strings.ContainsAny(opts.PrefixOutputFile, `/\`) {
+		// The prefix is part of a file name. With a path separator in it the
+		// output would land outside the package's directory, possibly on top
+		// of another package's file.
+		return nil, []error{fmt.Errorf("output file prefix %q must not contain a path separator", opts.PrefixOutputFile)}
+	}
 	pkgs, errs := load(ctx, wd, env, opts.Tags, patterns)
 	if len(errs) > 0 {
 		return nil, errs
